@@ -99,6 +99,8 @@ def model (line : String) : String :=
   -- model fact: Terminated is a control message, PostStart is not, so it may be handled first
   -- (whether the guardian survives that is judged by the oracle, see findings/C09.json)
   | ["guard", _] => "overtakes=true"
+  -- controlled-schedule witnesses of the lookup/delete race: no small-step model, judged only
+  | "resolve" :: _ => "*"
   | _ => "bad-case"
 
 /-! ### judge: parse the implementation's dump back and run the Spec on it -/
@@ -227,6 +229,10 @@ def judge (line : String) : String :=
     if o.startsWith "panic" || o.startsWith "CRASH" then "bad " ++ o
     else if (o.splitOn ";lost=").length > 1 || (o.splitOn "#R:err").length > 1 then "ok inconclusive"
     else judgeSys {} toks (o.splitOn "#")
+  | "resolve" :: _ =>
+    if (o.splitOn "panic").length > 1 then "bad name resolution panics: the node was cleared by death watch between the lookup and node.value(), and the nil PID is dereferenced"
+    else if (o.splitOn "!stuck").length > 1 then "bad controlled schedule did not complete"
+    else "ok"
   | "guard" :: _ =>
     if (o.splitOn "panic").length > 1 then "bad guardian panics on a Terminated that overtakes its PostStart (the root guardian then stops the actor system)"
     else "ok"
